@@ -103,6 +103,7 @@ type gscript struct {
 	unquotable  bool
 	updates     int
 	sig         string
+	endVerdict  string // "" or the verdict an extra last line forces ("fail", "skip") after the updates were recorded
 	setupCd     bool // Params.Setup moves the script's starting directory to $WORK/startdir (as cmd/go's tests do)
 }
 
@@ -242,7 +243,28 @@ func gen(r *rand.Rand, idx int) *gscript {
 		}
 		g.wantFail = true
 	}
-	if !g.wantFail && r.Intn(3) == 0 {
+	if !g.wantFail && !g.unquotable && r.Intn(5) == 0 {
+		// the run ends badly AFTER goldens were updated: the updates that were recorded must be
+		// written all the same (the script file is rewritten however the run ends)
+		switch r.Intn(3) {
+		case 0:
+			src := emitActual("something\n")
+			fmt.Fprintf(&sb, "cp %s outside-end\n", src)
+			src2 := emitActual("something else\n")
+			fmt.Fprintf(&sb, "cmp %s outside-end\n", src2)
+			g.endVerdict = "fail"
+			kinds = append(kinds, "then-fail-outside")
+		case 1:
+			fmt.Fprintf(&sb, "exists no-such-file-at-the-end\n")
+			g.endVerdict = "fail"
+			kinds = append(kinds, "then-fail")
+		default:
+			sb.WriteString("skip 'after the updates'\n")
+			g.endVerdict = "skip"
+			kinds = append(kinds, "then-skip")
+		}
+	}
+	if !g.wantFail && g.endVerdict == "" && r.Intn(3) == 0 {
 		// the file of an entry that is no golden changes on disk during the run: the archive entry must not follow it
 		fmt.Fprintf(&sb, "exec vhelper out 'scribble'\ncp stdout %s\n", ar("input.txt"))
 		kinds = append(kinds, "disk-change")
@@ -393,6 +415,18 @@ func main() {
 				}
 				if !bytes.Equal(afterB, []byte(g.text)) {
 					fail("script-modified-by-non-updating-comparison", "the script file changed although only cmpenv / outside-archive / negated comparisons mismatched")
+				}
+			case g.endVerdict != "":
+				r.Count("runs_ending_badly_after_updates", 1)
+				if v != g.endVerdict {
+					fail("wrong-verdict-after-updates", fmt.Sprintf("the last line makes the run %s, reported %s", g.endVerdict, v))
+				}
+				if g.expect == nil {
+					if !bytes.Equal(afterB, []byte(g.text)) {
+						fail("script-modified-without-mismatch", "the script file changed although no golden mismatched")
+					}
+				} else if d := eqArchive(after, g.expect); d != "" {
+					fail("updates-lost-when-the-run-ends-badly", fmt.Sprintf("goldens mismatched (and were accepted) before the run ended as %s, but the script file does not hold the actual contents: %s", g.endVerdict, d))
 				}
 			case g.expect == nil:
 				if v != "pass" {
